@@ -197,6 +197,14 @@ def _t_qact(rng, di):
   return {"t": "QActivation", "aq": gen_aq(rng)}
 
 
+def _t_qadaptive(rng, di):
+  return {"t": "QAdaptiveActivation", "act": rng.pick(["quantized_relu",
+                                                       "quantized_bits"]),
+          "bits": rng.pick([4, 6, 8]), "per_channel": rng.chance(0.4),
+          "qdelay": rng.pick([1, 2]), "po2_rounding": rng.chance(0.3),
+          "symmetric": rng.chance(0.7)}
+
+
 def _t_qscale(rng, di):
   return {"t": "QScaleShift", "use_bias": not rng.chance(0.3),
           "wq": gen_wq(rng, 1, allow_none=False, data_independent=True,
@@ -248,6 +256,8 @@ IMG_T = [(_t_qconv2d, 4), (_t_qdw, 2), (_t_qsep2d, 1.5), (_t_qbn, 2),
          (_t_qpool, 1), (_t_qact, 2), (_t_qscale, 0.5)]
 SEQ_T = [(_t_qconv1d, 3), (_t_qsep1d, 1.5), (_t_qrnn, 3), (_t_qact, 1)]
 VEC_T = [(_t_qdense, 5), (_t_qact, 2), (_t_qbn, 1)]
+# QAdaptiveActivation is only generated for C13 (allow=["adaptive"])
+ADAPTIVE_W = 0.8
 
 
 def gen_model(rng, data_independent=False, allow=None, max_layers=5):
@@ -265,7 +275,8 @@ def gen_model(rng, data_independent=False, allow=None, max_layers=5):
           layers.append({"t": "Flatten"})
         cur = "vec"
         continue
-      f = rng.wpick(IMG_T)
+      f = rng.wpick(IMG_T + ([(_t_qadaptive, ADAPTIVE_W)]
+                             if allow and "adaptive" in allow else []))
       l = f(rng, data_independent)
       if l["t"] in ("QConv2D", "QDepthwiseConv2D", "QSeparableConv2D"):
         k = l["kernel"]
@@ -295,7 +306,8 @@ def gen_model(rng, data_independent=False, allow=None, max_layers=5):
       else:
         layers.append(l)
     else:
-      f = rng.wpick(VEC_T)
+      f = rng.wpick(VEC_T + ([(_t_qadaptive, ADAPTIVE_W)]
+                             if allow and "adaptive" in allow else []))
       layers.append(f(rng, data_independent))
   if cur == "img":
     layers.append({"t": "Flatten"})
@@ -375,6 +387,16 @@ def _layer(l, name):
                                       activation=q(l.get("aq")), name=name)
   if t == "QActivation":
     return qk.QActivation(q(l["aq"]), name=name)
+  if t == "QAdaptiveActivation":
+    import contextlib
+    import io
+    with contextlib.redirect_stderr(io.StringIO()):
+      return qk.QAdaptiveActivation(l["act"], l["bits"],
+                                    per_channel=l.get("per_channel", False),
+                                    quantization_delay=l.get("qdelay", 1),
+                                    po2_rounding=l.get("po2_rounding", False),
+                                    symmetric=l.get("symmetric", True),
+                                    name=name)
   if t == "QScaleShift":
     return qk.QScaleShift(weight_quantizer=q(l.get("wq")),
                           bias_quantizer=q(l.get("bq")),
